@@ -105,6 +105,9 @@ class AnmCases:
                 elif args != (self.n,) or t[3]:
                     self.problems.append("%s draw is called with %s instead of n" % (tag, [fmt(a) for a in args]))
                 return Counter([tag])
+            if f[0] == "phi" and len(f) == 4:
+                # (g if c else h)(n): one of the two callables is called, chosen by c
+                return self.ev(("phi", f[1], ("apply", f[2]) + tuple(t[2:]), ("apply", f[3]) + tuple(t[2:])))
             raise Inconclusive("callable is not indexed by the loop variable: %s" % fmt(f)[:80])
         if k == "const" and t[1] == 0:
             return Counter()
